@@ -206,6 +206,16 @@ def check_case(ctx, case):
                 big.compute_gamma(gd, n_samples=ns, soft=mode == "soft", sampler=pa.ShuffleContinuumSampler())
         with P("get_fast_alignment[windowable]", continua=[big], dissims=[gd]):
             big.get_fast_alignment(gd, 3)
+        # ... and once a window size HAS been recorded (explicit measure), the other modes must leave it alone as well
+        with P("measure_best_window_size[windowable]", continua=[big], dissims=[gd], allow_window=True):
+            big.measure_best_window_size(gd)
+        ctx.observe("recorded_window_before_plain_gamma", "finite" if big.best_window_size != np.inf else "inf")
+        for mode in ("exact", "soft"):
+            with P(f"compute_gamma[{mode},windowable,after-measure]", continua=[big], dissims=[gd]):
+                big.compute_gamma(gd, n_samples=1, soft=mode == "soft", sampler=pa.ShuffleContinuumSampler())
+        twin = big.copy()
+        with P("compute_gamma[exact,copy-of-measured]", continua=[twin, big], dissims=[gd]):
+            twin.compute_gamma(gd, n_samples=1, sampler=pa.StatisticalContinuumSampler())
     for res in results[:2]:
         with P("GammaResults.gamma"):
             res.gamma, res.expected_disorder, res.observed_disorder, res.n_samples
@@ -231,6 +241,15 @@ def check_case(ctx, case):
             sample = sampler.sample_from_continuum
         if sample is not None:
             independence(ctx, rng, c, sample, f"sample[{kind}]")
+    # ---- calls that are refused (or ought to be) because of their arguments must not touch the continuum either
+    ctx.count("M-PURE-AFTER-FAILURE")
+    ghost = "nobody by that name"
+    for name, fn in (("compute_gamma[unknown ground-truth annotator]", lambda: c.compute_gamma(dissim, n_samples=1, ground_truth_annotators=[names[0], ghost])),
+                     ("init_sampling[statistical, unknown ground-truth annotator]", lambda: pa.StatisticalContinuumSampler().init_sampling(c, [ghost, names[0]])),
+                     ("init_sampling[shuffle, unknown ground-truth annotator]", lambda: pa.ShuffleContinuumSampler().init_sampling(c, [names[-1], ghost])),
+                     ("compute_gamma[fast and soft]", lambda: c.compute_gamma(dissim, n_samples=1, fast=True, soft=True))):
+        with P(name, may_raise=True):
+            fn()
     # ---- a computation that FAILS part-way (a late unit carries a label the dissimilarity does not know) must leave its
     # input exactly as it was, too
     if case.get("poisoned"):
